@@ -128,6 +128,9 @@ pub fn on_poll_begin(w: &mut World, id: NodeId) {
 
 pub fn on_poll_end(w: &mut World, id: NodeId, res: Res, val: Option<u32>) {
     let parent = w.node(id).parent;
+    if parent == ROOT && w.node(ROOT).fam == Family::CoStream {
+        crate::costream::on_poll_end(w, id, res, val);
+    }
     if parent != NO_NODE && w.node(parent).fam == Family::Zip && res == Res::Some {
         w.node_mut(id).buffered = val;
     }
@@ -246,6 +249,7 @@ pub fn on_root_poll_begin(w: &mut World) {
     if r.done {
         w.harness_error = Some("harness polled a finished root".into());
     }
+    crate::group::on_root_poll_begin(w);
 }
 
 pub fn on_root_poll_end(w: &mut World, out: &Out) {
@@ -259,6 +263,12 @@ pub fn on_root_poll_end(w: &mut World, out: &Out) {
     }
     if w.model.flat {
         lr_check(w, out);
+    } else if w.node(ROOT).fam == Family::Zip && out.res == Res::Some {
+        // nested zip root produced a row: its inputs' buffered items were consumed
+        let kids = w.node(ROOT).children.clone();
+        for k in kids {
+            w.node_mut(k).buffered = None;
+        }
     }
     match w.node(ROOT).fam {
         Family::FutGroup | Family::StreamGroup => crate::group::on_root_poll_end(w, out),
@@ -600,6 +610,7 @@ pub fn at_quiescence(w: &mut World) {
 // ------------------------------------------------------------------ end of run
 
 pub fn at_root_drop_end(w: &mut World) {
+    crate::costream::at_root_drop_end(w);
     // no child outlives the combinator
     for id in 1..w.nodes.len() as NodeId {
         let n = w.node(id);
